@@ -892,6 +892,15 @@ def _to_copy(m, func, args, kwargs):
     src = args[0]
     out = func(*args, **kwargs)
     ts = m.terms(src)
+    if out.dtype.is_floating_point and src.dtype == torch.bool and getattr(m.ctx, 'split_bool_casts', False):
+        # case split: a symbolic mask turned into 0/1 weights is decided element by element (one path per region)
+        vals = m.concrete_vals(src)
+        dec = [None if x is None else m.ctx.decide(to_bool(x), bool(v)) for x, v in zip(ts, vals)]
+        with _disable_current_modes():
+            fixed = torch.tensor([bool(v) if d is None else d for d, v in zip(dec, vals)], dtype=torch.bool).view(src.shape)
+            out.copy_(fixed.to(out.dtype))
+        m.clear(out)
+        return out
     if out.dtype.is_floating_point:
         ts = [None if x is None else to_real(x) for x in ts]
     elif out.dtype == torch.bool:
